@@ -424,6 +424,10 @@ OPTIONS:
 					}
 				}
 			case MPTCPSubtypeDSS:
+				if opt.OptionLength < 4 {
+					// the flags octet is read before the length can be validated against them
+					return fmt.Errorf("DSS bad option length %d", opt.OptionLength)
+				}
 				opt.OptionMPTCPDss = &Dss{
 					F: data[3]&0x10 != 0,
 					m: data[3]&0x08 != 0,
